@@ -75,6 +75,18 @@ def run(ctx):
                   ctx.prog.consts[c01.TABLE]["sp"])
 
 
+def _is_alias_let(st):
+    """`let this: &mut Self = &mut slf;` -- an immutable binding of a (re)borrow: no effect of its own"""
+    if st.get("k") != "let" or st.get("pat", {}).get("k") != "pbind" or "Mut)" in st["pat"].get("mode", "") or st.get("els"):
+        return False
+    for x in walk(st.get("init") or {}):
+        if x.get("k") in ("call", "mcall") and cname(x).split("::")[-1] not in ("deref", "deref_mut", "borrow", "borrow_mut", "as_mut", "as_ref"):
+            return False
+        if x.get("k") in ("if", "match", "loop", "for", "while", "closure", "ret", "assign", "assignop"):
+            return False
+    return True
+
+
 def delegation_rule(ctx, g):
     short = g["adt"].split("::")[-1]
     fn = ctx.need("C13.D", g["next"])
@@ -82,7 +94,7 @@ def delegation_rule(ctx, g):
         body = fn.body.get("expr")
         ok = body is not None and body.get("k") == "mcall" and rname(body) == g["core_next"] \
             and fn.term(body["recv"])[0] == "field" and fn.term(body["recv"])[2] == g["gen"] \
-            and not fn.body.get("stmts")
+            and all(_is_alias_let(st) for st in fn.body.get("stmts", []))
         ctx.check("C13.D", "%s:__next__" % short, ok, "__next__ = core next() on the owned generator, returned unchanged",
                   "__next__ is `%s`; expected a bare `slf.%s.next()` resolving to %s"
                   % (show(fn.term(body)) if body else "?", g["gen"], g["core_next"]), fn.fn["sp"])
@@ -121,34 +133,75 @@ def delegation_rule(ctx, g):
                   "to_acgt is `%s`" % show(t), fa.fn["sp"])
 
 
+def _strip_ref(x):
+    while isinstance(x, dict) and (x.get("k") == "addr" or (x.get("k") == "un" and x.get("op") == "*")
+                                   or (x.get("k") == "block" and not x.get("stmts") and x.get("expr") is not None)):
+        x = x["e"] if x.get("k") != "block" else x["expr"]
+    return x
+
+
+def extension_sites(fv):
+    """places where a borrow of an owned buffer is given an unbounded lifetime; [(node, borrowed-from expression, idiom)]:
+    transmute(Arc::as_ref(&a)),  &*Arc::as_ptr(&a),  slice::from_raw_parts(a.as_ptr(), a.len())"""
+    out = []
+    for n in fv.nodes:
+        if n.get("mac"):
+            continue
+        k = n.get("k")
+        c = cname(n) if k in ("call", "mcall") else ""
+        if k == "call" and c.endswith("::transmute"):
+            arg = n["args"][0]
+            src = None
+            if arg.get("k") in ("call", "mcall") and "Arc" in rname(arg) and rname(arg).endswith("as_ref"):
+                src = _strip_ref(call_args(arg)[0])
+            out.append((n, src, "transmute"))
+        elif k == "call" and c.split("::")[-1] in ("from_raw_parts", "from_raw_parts_mut") and "slice" in c:
+            a0, a1 = _strip_ref(n["args"][0]), _strip_ref(n["args"][1])
+            src = None
+            if a0.get("k") in ("call", "mcall") and cname(a0).split("::")[-1] == "as_ptr" \
+                    and a1.get("k") in ("call", "mcall") and cname(a1).split("::")[-1] == "len":
+                s0, s1 = _strip_ref(call_args(a0)[0]), _strip_ref(call_args(a1)[0])
+                if s0.get("k") == "local" and s1.get("k") == "local" and s0.get("id") == s1.get("id"):
+                    src = s0
+            out.append((n, src, "from_raw_parts"))
+        elif k == "addr" and isinstance(n.get("e"), dict) and n["e"].get("k") == "un" and n["e"].get("op") == "*":
+            inner = n["e"]["e"]
+            if isinstance(inner, dict) and inner.get("k") in ("call", "mcall") and cname(inner).split("::")[-1] == "as_ptr" \
+                    and "Arc" in (cname(inner) + rname(inner)):
+                out.append((n, _strip_ref(call_args(inner)[0]), "raw_deref"))
+    return out
+
+
 def ownership_rule(ctx, g):
     short = g["adt"].split("::")[-1]
     fnew = ctx.need("C13.O", g["new"])
     if fnew is None:
         return
-    tm = [n for n in fnew.nodes if n.get("k") == "call" and cname(n).endswith("::transmute")]
-    if len(tm) != 1:
-        ctx.fail("C13.O", "%s:transmute" % short, "expected exactly one transmute in the constructor, found %d" % len(tm), fnew.fn["sp"])
+    sites = extension_sites(fnew)
+    if len(sites) != 1:
+        ctx.fail("C13.O", "%s:transmute" % short, "expected exactly one lifetime extension (transmute / from_raw_parts / raw "
+                 "deref of Arc::as_ptr) in the constructor, found %d" % len(sites), fnew.fn["sp"])
         return
-    arg = tm[0]["args"][0]
+    tm = [sites[0][0]]
+    inner = sites[0][1]
     src_local = None
-    ok = arg.get("k") in ("call", "mcall") and (rname(arg).endswith("Arc<T, A> as std::convert::AsRef<T>>::as_ref")
-                                                 or "Arc" in rname(arg) and rname(arg).endswith("as_ref"))
+    ok = inner is not None
     if ok:
-        inner = call_args(arg)[0]
-        while inner.get("k") == "addr":
-            inner = inner["e"]
         if inner.get("k") == "local":
             o_ = fnew.origin(inner)
             inner = o_ if o_.get("k") == "local" else inner
-        ok = inner.get("k") == "local" and inner.get("ty", "").startswith("std::sync::Arc<[u8]")
+        ok = inner.get("k") == "local" and inner.get("ty", "").lstrip("&").startswith("std::sync::Arc<[u8]")
         src_local = inner if ok else None
-    gargs = tm[0].get("gargs", [])
-    ok_ty = gargs == ["&[u8]", "&[u8]"] or (len(gargs) == 2 and gargs[0].endswith("[u8]") and gargs[1].endswith("[u8]"))
+    if sites[0][2] == "transmute":
+        gargs = tm[0].get("gargs", [])
+        ok_ty = gargs == ["&[u8]", "&[u8]"] or (len(gargs) == 2 and gargs[0].endswith("[u8]") and gargs[1].endswith("[u8]"))
+    else:
+        gargs = [tm[0].get("ty")]
+        ok_ty = (tm[0].get("ty") or "").endswith("[u8]")
     ctx.check("C13.O", "%s:transmute_source" % short, bool(ok) and ok_ty,
-              "lifetime extension of Arc::as_ref(&_data) (&[u8] -> &'static [u8])",
-              "the transmute does not extend exactly `Arc::as_ref(&<Arc<[u8]> local>)` from &[u8] to &[u8] "
-              "(types %s)" % gargs, line_of(tm[0]))
+              "lifetime extension of the bytes of the Arc<[u8]> local (&[u8] -> &'static [u8])",
+              "the lifetime extension (%s) does not borrow exactly the bytes of an `Arc<[u8]>` local as &[u8] "
+              "(types %s)" % (sites[0][2], gargs), line_of(tm[0]))
     if src_local is not None:
         b = fnew.binds.get(src_local["id"])
         dt = fnew.term(b["val"][1]) if b and b["val"][0] == "node" else ("none",)
@@ -245,12 +298,12 @@ def ownership_rule(ctx, g):
 def transmute_census(ctx):
     sites = []
     for fv in ctx.all_views():
-        for n in fv.nodes:
-            if n.get("k") == "call" and cname(n).endswith("::transmute") and not n.get("mac"):
-                sites.append(fv.path)
+        for n, _src, _kind in extension_sites(fv):
+            sites.append(fv.path)
     ctx.check("C13.O", "workspace:transmutes", sorted(sites) == sorted([PYK["new"], PYM["new"]]),
-              "exactly two transmutes in the workspace, both in the iterator constructors",
-              "transmute sites are %s; expected only the two binding constructors" % sorted(sites), None)
+              "exactly two lifetime extensions in the workspace, both in the iterator constructors",
+              "lifetime-extension sites (transmute / from_raw_parts / raw deref of Arc::as_ptr) are %s; expected only the "
+              "two binding constructors" % sorted(sites), None)
 
 
 def value_error_rule(ctx):
@@ -263,7 +316,8 @@ def value_error_rule(ctx):
         t = fv.term(rets[0]["e"])
         ok = t[0] == "call" and t[1].endswith("::Err") and t[2][0] == "call" and \
             t[2][1] in ("pyo3::PyErr::new_err", "pyo3::exceptions::PyValueError::new_err") and \
-            "PyValueError" in (rets[0]["e"]["args"][0].get("callee", "") + str(rets[0]["e"]["args"][0].get("gargs", "")) + str(rets[0]["e"]["args"][0].get("f", {}).get("path", "")))
+            any("PyValueError" in ((x.get("callee") or "") + str(x.get("gargs", "")) + str((x.get("f") or {}).get("path", "")))
+                for x in walk(rets[0]["e"]) if x.get("k") == "call" and (x.get("callee") or "").endswith("new_err"))
     ctx.check("C13.V", "cgr::vectorise_one:value_error", ok, "bad nucleotide -> Err(PyValueError::new_err(..))",
               "the rejection edge is `%s`, expected Err(PyValueError::new_err(..))" % (show(fv.term(rets[0]["e"])) if rets else "?"),
               line_of(rets[0]) if rets else fv.fn["sp"])
